@@ -485,9 +485,10 @@ def write_replay(check, viol, minimal, base_seed, note=""):
         return {"kind": o.violation, "sig": o.sig, "message": o.message,
                 "digest": log_digest(o.log), "trace": o.sample, "rec": chx.rec}
     res = in_child(job, _wall(check) * 2 + 60)
-    os.makedirs(os.path.join(VERIF_DIR, "out", "replays"), exist_ok=True)
+    outdir = os.path.join(os.environ.get("VERIF_OUT_DIR") or os.path.join(VERIF_DIR, "out"), "replays")   # scratch runs
+    os.makedirs(outdir, exist_ok=True)
     name = f"{check.ID}-{viol['index']}-{res['kind'] or 'none'}-{h64(minimal) & 0xFFFFFF:06x}.json"
-    path = os.path.join(VERIF_DIR, "out", "replays", name)
+    path = os.path.join(outdir, name)
     doc = {
         "property": check.ID,
         "kind": res["kind"],
@@ -691,7 +692,12 @@ def main_check(check, argv):
     rc = 0
     extra = {"truncated_by_wall_cap": truncated, "violations_found": agg.n_violations}
     if agg.errors:
-        print("HARNESS-ERROR", file=sys.stderr)
+        first = agg.errors[0].strip().splitlines()
+        print(f"HARNESS-ERROR {len(agg.errors)} episode(s)/case(s) failed in harness code (no verdict from them); last line of the "
+              f"first: {first[-1] if first else ''}", file=sys.stderr)
+        if agg.n_violations:
+            print(f"note: {agg.n_violations} run(s) of this batch did report a violation, but a batch with harness errors is "
+                  f"not trusted: fix the harness error first", file=sys.stderr)
         for e in agg.errors[:5]:
             print(e, file=sys.stderr)
         rc = 2
